@@ -275,8 +275,8 @@ PARTS = [
          floor={"quick": 300, "thorough": 10000}, corpus=_corpus(), shrink={"quick": False, "thorough": True}),
     Part("models", lambda tier: model_strategy(), check_model, {"quick": 1200, "thorough": 30000},
          floor={"quick": 60, "thorough": 1500}, shrink={"quick": False, "thorough": True}),
-    Part("period-doubling-boundary", bifurcation_strategy, check_bifurcation, {"quick": 320, "thorough": 8000},
-         floor={"quick": 30, "thorough": 750}, shrink={"quick": False, "thorough": False}, max_discard=0.9),
+    Part("period-doubling-boundary", bifurcation_strategy, check_bifurcation, {"quick": 320, "thorough": 4000},
+         floor={"quick": 30, "thorough": 400}, shrink={"quick": False, "thorough": False}, max_discard=0.9),
     Part("pressure-resonance", lambda tier: resonance_strategy(), check_resonance, {"quick": 640, "thorough": 20000},
          floor={"quick": 60, "thorough": 2000}, shrink={"quick": False, "thorough": False}),
     Part("non-ideal-models", lambda tier: __import__("pvverif.procs", fromlist=["x"]).process_case(
